@@ -47,38 +47,54 @@ def job_rot2d():
         res.append(ob('rot/dim%d-rejected' % dim, 'discharged' if ok else 'candidate', key='C16/rot/dim-rejected', model=None if ok else {'dim': dim, 'op': 83}, detail='exits after a diagnostic'))
     return res
 
+def _rot3d_basic(ra, Ra, hyp, mv, n, sa, ca, sfx):
+    res = []
+    res += divisor_obligations('rot3d' + sfx, ra.st, pre=[], model_vars=mv, key='C16/rot3d/division-by-zero')
+    for i in range(3):
+        for j in range(3):
+            res.append(prove('rot3d%s/orthogonal[%d,%d]' % (sfx, i, j), hyp, sum(toR(Ra[k][i]) * toR(Ra[k][j]) for k in range(3)) == (1 if i == j else 0), 60000, mv, key='C16/rot3d/orthogonal', tactic='nra', sample=(i == 0 and j == 0)))
+    det = sum(toR(Ra[0][p[0]]) * toR(Ra[1][p[1]]) * toR(Ra[2][p[2]]) * (1 if sum(1 for x in range(3) for y in range(x + 1, 3) if p[x] > p[y]) % 2 == 0 else -1) for p in itertools.permutations(range(3)))
+    res.append(prove('rot3d%s/det' % sfx, hyp, det == 1, 120000, mv, key='C16/rot3d/det', tactic='nra'))
+    for i in range(3):
+        res.append(prove('rot3d%s/axis-fixed[%d]' % (sfx, i), hyp, sum(toR(Ra[i][k]) * n[k] for k in range(3)) == n[i], 60000, mv, key='C16/rot3d/axis-fixed', tactic='nra'))
+    # right-handed turn of perpendicular vectors: R v = c v + s (n^ x v)  <=>  |n| R v = |n| c v + s (n x v)
+    v = [z3.Real('v%d' % i) for i in range(3)]; perp = [sum(n[k] * v[k] for k in range(3)) == 0]
+    ws = [d[1] for d in ra.st.defs if d[0] == 'sqrt']
+    if ws: nrm = ws[0]
+    else:
+        nrm = z3.Real('axis_norm'); hyp = hyp + [nrm > 0, nrm * nrm == sum(x * x for x in n)]      # a path that never took the norm of the axis: the claim is still about the given axis
+    cr = [n[1] * v[2] - n[2] * v[1], n[2] * v[0] - n[0] * v[2], n[0] * v[1] - n[1] * v[0]]
+    for i in range(3):
+        res.append(prove('rot3d%s/right-handed[%d]' % (sfx, i), hyp + perp, nrm * sum(toR(Ra[i][k]) * v[k] for k in range(3)) == nrm * ca * v[i] + sa * cr[i], 120000, dict(mv, v=v), key='C16/rot3d/right-handed', tactic='nra'))
+
+    return res
+
 def job_rot3d(part):
     res = []; a, sa, ca, ax = angle('alpha'); b, sb, cb, bx = angle('beta'); g = z3.Real('gamma')
     tab = [(a, (sa, ca)), (b, (sb, cb)), (g, (sa * cb + ca * sb, ca * cb - sa * sb))]
     n = [z3.Real('n%d' % i) for i in range(3)]; nz = [z3.Or(*[x != 0 for x in n])]
     mv = {'sin': sa, 'cos': ca, 'axis': n, 'op': 80, 'sinb': sb, 'cosb': cb}
-    def R(x):
+    def Rall(x):
         _, rs = run_la(80, B=n, vecB=True, s=x, i=3, intercept=trig(tab), pre=nz)
-        rs = [q for q in rs if q.end is None]
+        return [q for q in rs if q.end is None]
+    def R(x):
+        rs = Rall(x)
         if len(rs) != 1: raise Unsupported('Rotation_Matrix(.,3,axis): %d returning paths' % len(rs))
         return rs[0], mat(rs[0], 3, 3)
-    ra, Ra = R(a)
-    hyp = alg_assumptions(ra.st) + ax + nz
     if part == 'basic':
-        res += divisor_obligations('rot3d', ra.st, pre=[], model_vars=mv, key='C16/rot3d/division-by-zero')
-        for i in range(3):
-            for j in range(3):
-                res.append(prove('rot3d/orthogonal[%d,%d]' % (i, j), hyp, sum(toR(Ra[k][i]) * toR(Ra[k][j]) for k in range(3)) == (1 if i == j else 0), 60000, mv, key='C16/rot3d/orthogonal', tactic='nra', sample=(i == 0 and j == 0)))
-        det = sum(toR(Ra[0][p[0]]) * toR(Ra[1][p[1]]) * toR(Ra[2][p[2]]) * (1 if sum(1 for x in range(3) for y in range(x + 1, 3) if p[x] > p[y]) % 2 == 0 else -1) for p in itertools.permutations(range(3)))
-        res.append(prove('rot3d/det', hyp, det == 1, 120000, mv, key='C16/rot3d/det', tactic='nra'))
-        for i in range(3):
-            res.append(prove('rot3d/axis-fixed[%d]' % i, hyp, sum(toR(Ra[i][k]) * n[k] for k in range(3)) == n[i], 60000, mv, key='C16/rot3d/axis-fixed', tactic='nra'))
-        # right-handed turn of perpendicular vectors: R v = c v + s (n^ x v)  <=>  |n| R v = |n| c v + s (n x v)
-        v = [z3.Real('v%d' % i) for i in range(3)]; perp = [sum(n[k] * v[k] for k in range(3)) == 0]
-        nrm = [d[1] for d in ra.st.defs if d[0] == 'sqrt'][0]
-        cr = [n[1] * v[2] - n[2] * v[1], n[2] * v[0] - n[0] * v[2], n[0] * v[1] - n[1] * v[0]]
-        for i in range(3):
-            res.append(prove('rot3d/right-handed[%d]' % i, hyp + perp, nrm * sum(toR(Ra[i][k]) * v[k] for k in range(3)) == nrm * ca * v[i] + sa * cr[i], 120000, dict(mv, v=v), key='C16/rot3d/right-handed', tactic='nra'))
-        # wrong axis size is rejected
+        # every returning path of the call is held to the claims under its own path condition (a code path that treats some non-zero axes differently is examined, not skipped)
+        allp = Rall(a)
+        if not allp: return [ob('rot3d/reach', 'broken', detail='no returning path')]
+        for pidx, ra in enumerate(allp):
+            res += _rot3d_basic(ra, mat(ra, 3, 3), alg_assumptions(ra.st) + ax + nz + (list(ra.pc) if len(allp) > 1 else []), mv, n, sa, ca, '' if len(allp) == 1 else '/path%d' % pidx)
         for k in (2, 4):
             _, rs = run_la(80, B=[z3.Real('m%d' % i) for i in range(k)], vecB=True, s=a, i=3, intercept=trig(tab))
             ok = all(q.end is not None and q.end.kind == 'exit' for q in rs)
             res.append(ob('rot3d/axis-size-%d-rejected' % k, 'discharged' if ok else 'candidate', key='C16/rot3d/axis-size-rejected', model=None if ok else {'op': 80, 'axis_size': k}))
+        return res
+    ra, Ra = R(a)
+    hyp = alg_assumptions(ra.st) + ax + nz
+    if False: pass
     else:
         rb, Rb = R(b); rg, Rg = R(g)
         _, pr = run_la(7, Ra, Rb); P = mat(pr[0], 3, 3)
